@@ -91,15 +91,13 @@ def splitEq : Str → Str × Option Str
   | 61 :: t => ([], some t)
   | c :: t => let (a, b) := splitEq t; (c :: a, b)
 
-/-- `utf8.RuneLen(ch)` for the rune the range loop yields at the head of `s` (an invalid byte yields U+FFFD, whose
-    length is 3 although only one byte is consumed) -/
-def nextLen (s : Str) : Nat := if (runeLen s).2 then (runeLen s).1 else 3
+/-- `_, size := utf8.DecodeRuneInString(arg[j:])`: the number of bytes the range loop consumes for the rune at the
+    head of `s` (1 for an invalid byte, which the loop yields as U+FFFD) -/
+def nextLen (s : Str) : Nat := (runeLen s).1
 
-/-- the per-rune loop over a `-abc` argument (cmdline.go:146-168); returns the new accumulator and mode, or none for
-    fatal.  `next := j + utf8.RuneLen(ch)`; `next == len(arg)` starts value mode, `arg[next:next+1] == "="` and
-    `arg[next:]` give the attached value.  When `next` lies beyond the end of the argument (only possible for an
-    invalid byte matched by an option named U+FFFD) the Go code panics with a slice-bounds error; the model says
-    `none` there and the generator does not produce that case. -/
+/-- the per-rune loop over a `-abc` argument (cmdline.go:146-169); returns the new accumulator and mode, or none for
+    fatal.  `next := j + size`; `next == len(arg)` starts value mode, `arg[next:next+1] == "="` and `arg[next:]` give
+    the attached value. -/
 def shortLoop (tbl : Table) (acc : Accepts) : Str → PAcc → Option (PAcc × Mode)
   | [], a => some (a, .look)
   | c :: t, a =>
@@ -110,7 +108,6 @@ def shortLoop (tbl : Table) (acc : Accepts) : Str → PAcc → Option (PAcc × M
         match set acc a o strTrue with
         | none => none
         | some a' => shortLoop tbl acc (t.drop ((runeLen (c :: t)).1 - 1)) a'
-      else if (c :: t).length < nextLen (c :: t) then none
       else match (c :: t).drop (nextLen (c :: t)) with
         | [] => some (a, .value o)
         | 61 :: v => (set acc a o v).map (fun a' => (a', .look))
